@@ -1,0 +1,46 @@
+//go:build verif
+
+package gnosis
+
+import (
+	"context"
+
+	"github.com/jackc/pgx/v4/pgxpool"
+
+	"github.com/shutter-network/rolling-shutter/rolling-shutter/keyper/epochkghandler"
+	"github.com/shutter-network/rolling-shutter/rolling-shutter/medley/beaconapiclient"
+	"github.com/shutter-network/rolling-shutter/rolling-shutter/medley/broker"
+	"github.com/shutter-network/rolling-shutter/rolling-shutter/medley/slotticker"
+	"github.com/shutter-network/rolling-shutter/rolling-shutter/p2p"
+)
+
+// VerifNewKeyper builds a keyper from the parts the slot handler uses, without starting services.
+func VerifNewKeyper(
+	config *Config,
+	dbpool *pgxpool.Pool,
+	beaconAPIClient *beaconapiclient.Client,
+	triggers chan *broker.Event[*epochkghandler.DecryptionTrigger],
+) *Keyper {
+	return &Keyper{
+		config:                   config,
+		dbpool:                   dbpool,
+		beaconAPIClient:          beaconAPIClient,
+		syncMonitor:              &SyncMonitor{},
+		decryptionTriggerChannel: triggers,
+	}
+}
+
+// VerifProcessNewSlot runs the handler of a slot tick.
+func (kpr *Keyper) VerifProcessNewSlot(ctx context.Context, slot uint64) error {
+	return kpr.processNewSlot(ctx, slotticker.Slot{Number: slot})
+}
+
+// VerifGetTxPointer exposes getTxPointer.
+func VerifGetTxPointer(ctx context.Context, db *pgxpool.Pool, eon int64, maxTxPointerAge int64) (int64, error) {
+	return getTxPointer(ctx, db, eon, maxTxPointerAge)
+}
+
+// VerifNewDecryptionKeysHandler builds the handler of received keys messages.
+func VerifNewDecryptionKeysHandler(dbpool *pgxpool.Pool) p2p.MessageHandler {
+	return &DecryptionKeysHandler{dbpool}
+}
